@@ -546,7 +546,7 @@ class ValueNthPerson(Contract):
     def probes(self, case):
         return [{"callee": self.name, "script": NATIVE, "op": "value_nth_person", "n": n, "count": 3, "eid": eid,
                  "values": [10.0, 20.0, 30.0, 40.0, 50.0, 60.0][:len(eid)], "inrole": [False] * len(eid)}
-                for eid in ([1, 0, 0, 2, 0, 1], [2, 1, 0], [0, 0, 1], [1, 1, 0, 0]) for n in (0, 1, 2)]
+                for eid in ([1, 0, 0, 2, 0, 1], [2, 1, 0], [0, 0, 1], [1, 1, 0, 0], [1, 2, 0], [2, 0, 1, 0, 1, 2], [1, 2, 0, 3]) for n in (0, 1, 2)]
 
     def judge_native(self, I, case, call, nat):
         return judge(nat)
@@ -761,7 +761,8 @@ class GroupReduce(Contract):
         kind = case.split("-")[0]
         return [{"callee": self.name, "script": NATIVE, "op": kind, "role": case.endswith("role"), "count": 3, "eid": eid,
                  "values": [10.0, -20.0, 30.0, 5.0, 50.0, -60.0][:len(eid)], "inrole": inrole}
-                for eid, inrole in (([1, 0, 0, 2, 0, 1], [True, False, True, False, True, False]), ([2, 1, 0], [True, True, False]), ([0, 0, 1], [False, True, False]))]
+                for eid, inrole in (([1, 0, 0, 2, 0, 1], [True, False, True, False, True, False]), ([2, 1, 0], [True, True, False]), ([0, 0, 1], [False, True, False]),
+                                    ([1, 2, 0], [True, True, True]), ([2, 0, 1, 0, 1, 2], [True, False, True, True, False, True]))]
 
     def judge_native(self, I, case, call, nat):
         return judge(nat)
